@@ -136,6 +136,12 @@ pub fn plan(p: u32, tier: &str) -> Vec<Run> {
         x.faults = faults;
         x
     };
+    let late3u = |k: usize| {
+        let mut x = late("late3xu-OE", true);
+        x.edit_bound = Some(k);
+        x.name = format!("late3xu-OE-k{}", k);
+        x
+    };
     let eph_shapes = ["late-requirement", "E-E-O+A", "E-E-E-O+A", "E-E-O+A-mid", "E-O-E-O"];
     match p {
         1 => {
@@ -190,11 +196,15 @@ pub fn plan(p: u32, tier: &str) -> Vec<Run> {
             add(deep3("S3D4-ff", 4, vec![false; 4]), families::slots(3));
             add(deep3("S3D3-f010", 3, vec![false, true, false]), families::slots(3));
             add(late("late2x", true), families::late_gadget(2, true));
+            add(late3u(1), families::late3xu_oe());
             add(late("latepair", true), families::late_pair());
             add(late("bigshapes", true), families::big_shapes());
             add(chains(true), families::chains(6));
             add(shapes_spec("eph-shapes-D2", 2, false), shapes_named(&eph_shapes));
             if thorough {
+                let mut l3u = late("late3xu-k1", true);
+                l3u.edit_bound = Some(1);
+                add(l3u, families::late_gadget_opts(3, true, false, None));
                 // thorough: the full 6-job late-requirement family, longer chains, faults in both evaluations
                 add(late("late3x", true), families::late_gadget(3, true));
                 let mut c7 = chains(true);
@@ -283,6 +293,7 @@ pub fn plan(p: u32, tier: &str) -> Vec<Run> {
             add(s4(false), families::slots(4));
             add(s4d2ff(), families::slots(4));
             add(late("late2x", true), families::late_gadget(2, true));
+            add(late3u(2), families::late3xu_oe());
             add(late("latepair", true), families::late_pair());
             add(late("bigshapes", true), families::big_shapes());
             add(chains(true), families::chains(6));
@@ -291,6 +302,9 @@ pub fn plan(p: u32, tier: &str) -> Vec<Run> {
             add(o, families::slots(3));
             add(shapes_spec("shapes-D2", 2, false), families::shapes(true));
             if thorough {
+                let mut l3u = late("late3xu-k1", true);
+                l3u.edit_bound = Some(1);
+                add(l3u, families::late_gadget_opts(3, true, false, None));
                 // thorough: the full 6-job late-requirement family, longer chains, faults in both evaluations
                 add(late("late3x", true), families::late_gadget(3, true));
                 let mut c7 = chains(true);
@@ -320,12 +334,16 @@ pub fn plan(p: u32, tier: &str) -> Vec<Run> {
             add(deep3("S3D4-ff", 4, vec![false; 4]), families::slots(3));
             add(deep3("S3D3-f010", 3, vec![false, true, false]), families::slots(3));
             add(late("late2x", true), families::late_gadget(2, true));
+            add(late3u(2), families::late3xu_oe());
             add(late("latepair", true), families::late_pair());
             add(late("bigshapes", true), families::big_shapes());
             add(chains(true), families::chains(6));
             add(shapes_spec("shapes-D2", 2, false), families::shapes(true));
             add(rename("rename-prod", Conv::Parts, Cmp::Prod), families::rename_opts(false, Kind::O, false));
             if thorough {
+                let mut l3u = late("late3xu-k1", true);
+                l3u.edit_bound = Some(1);
+                add(l3u, families::late_gadget_opts(3, true, false, None));
                 // thorough: the full 6-job late-requirement family, longer chains, faults in both evaluations
                 add(late("late3x", true), families::late_gadget(3, true));
                 let mut c7 = chains(true);
@@ -353,12 +371,16 @@ pub fn plan(p: u32, tier: &str) -> Vec<Run> {
             add(s4(false), families::slots(4));
             add(s4d2ff(), families::slots(4));
             add(late("late2x", true), families::late_gadget(2, true));
+            add(late3u(2), families::late3xu_oe());
             add(late("latepair", true), families::late_pair());
             add(late("bigshapes", true), families::big_shapes());
             add(chains(true), families::chains(6));
             add(s("S3D2-volatile", 2, m), families::slots_volatile(3));
             add(shapes_spec("shapes-D2", 2, false), families::shapes(true));
             if thorough {
+                let mut l3u = late("late3xu-k1", true);
+                l3u.edit_bound = Some(1);
+                add(l3u, families::late_gadget_opts(3, true, false, None));
                 // thorough: the full 6-job late-requirement family, longer chains, faults in both evaluations
                 add(late("late3x", true), families::late_gadget(3, true));
                 let mut c7 = chains(true);
@@ -440,6 +462,7 @@ pub fn plan(p: u32, tier: &str) -> Vec<Run> {
             add(s3(true), families::slots(3));
             add(s4(false), families::slots(4));
             add(s4d2ff(), families::slots(4));
+            add(late("late2x", true), families::late_gadget(2, true));
             add(deep3("S3D4-ff", 4, vec![false; 4]), families::slots(3));
             add(deep3("S3D3-f010", 3, vec![false, true, false]), families::slots(3));
             add(rename("rename-prod", Conv::Parts, Cmp::Prod), families::rename_opts(false, Kind::O, false));
@@ -508,11 +531,15 @@ pub fn plan(p: u32, tier: &str) -> Vec<Run> {
             add(s4(false), families::slots(4));
             add(s4d2ff(), families::slots(4));
             add(late("late2x", true), families::late_gadget(2, true));
+            add(late3u(1), families::late3xu_oe());
             add(late("latepair", true), families::late_pair());
             add(late("bigshapes", true), families::big_shapes());
             add(chains(true), families::chains(6));
             add(shapes_spec("shapes-D2", 2, false), families::shapes(true));
             if thorough {
+                let mut l3u = late("late3xu-k1", true);
+                l3u.edit_bound = Some(1);
+                add(l3u, families::late_gadget_opts(3, true, false, None));
                 // thorough: the full 6-job late-requirement family, longer chains, faults in both evaluations
                 add(late("late3x", true), families::late_gadget(3, true));
                 let mut c7 = chains(true);
@@ -621,12 +648,16 @@ pub fn plan(p: u32, tier: &str) -> Vec<Run> {
             add(s4(false), families::slots(4));
             add(s4d2ff(), families::slots(4));
             add(late("late2x", true), families::late_gadget(2, true));
+            add(late3u(2), families::late3xu_oe());
             add(late("latepair", true), families::late_pair());
             add(late("bigshapes", true), families::big_shapes());
             add(chains(true), families::chains(6));
             add(s("S3D2-volatile", 2, m), families::slots_volatile(3));
             add(shapes_spec("shapes-D2", 2, false), families::shapes(true));
             if thorough {
+                let mut l3u = late("late3xu-k1", true);
+                l3u.edit_bound = Some(1);
+                add(l3u, families::late_gadget_opts(3, true, false, None));
                 // thorough: the full 6-job late-requirement family, longer chains, faults in both evaluations
                 add(late("late3x", true), families::late_gadget(3, true));
                 let mut c7 = chains(true);
@@ -1024,6 +1055,9 @@ pub fn cmd_run(args: &[String]) -> i32 {
         "late2" => families::late_gadget(2, true),
         "late3" => families::late_gadget(3, false),
         "late3x" => families::late_gadget(3, true),
+        "late3xu-OOO" => families::late_gadget_opts(3, true, false, Some(vec![Kind::O, Kind::O, Kind::O])),
+        "late3xu" => families::late_gadget_opts(3, true, false, None),
+        "late3xu-OE" => families::late3xu_oe(),
         "bigshapes" => families::big_shapes(),
         "latepair" => families::late_pair(),
         "chains5" => families::chains(5),
